@@ -1,5 +1,5 @@
 From Coq Require Import ZArith List Extraction ExtrOcamlBasic.
-From N2kV Require Import Base.ListAux Model.CanId Model.Sched Model.PgnClass Model.NodeDefs Model.NodeRxDefs Model.GroupFnDefs Model.ConfInfoDefs Model.SetModeDefs Model.ProdInfoDefs.
+From N2kV Require Import Base.ListAux Model.CanId Model.Sched Model.PgnClass Model.NodeDefs Model.NodeRxDefs Model.GroupFnDefs Model.ConfInfoDefs Model.SetModeDefs Model.ProdInfoDefs Model.ApiDefs.
 Extraction Language OCaml.
-Extraction "Extract/model_NODE.ml" rrun gf_none cold_node set_configuration_information set_mode_src set_product_information prelude mk_dev claim_end_of sched_disabled sched_is_enabled ss_disabled to_can_id can_id_to_n2k
+Extraction "Extract/model_NODE.ml" rrun xrun gf_none cold_node set_configuration_information set_mode_src set_product_information prelude mk_dev claim_end_of sched_disabled sched_is_enabled ss_disabled to_can_id can_id_to_n2k
   Z.add Z.sub Z.mul Z.div Z.modulo Z.opp.
